@@ -46,7 +46,7 @@ ASSUMPTIONS = [
 ]
 
 _ENV = {}
-MODES = ["A_deferred", "A_tree", "B", "B", "B", "C", "C"]
+MODES = ["A_deferred", "A_tree", "B", "B", "B", "C", "C", "C", "D"]
 POLICIES = ["sample", "sample", "zeros", "ones", "rare", "alternate"]
 
 
@@ -128,7 +128,13 @@ def gen_case(streams, tier):
         ops.append(["measure", w.choice(wires), {"reset": False, "postselect": None}])
         k = 1
         ops.append(["cond", ["m", 0], qgen.gen_ops(w, n, 1)[0]])
-    shots_mode = mode in ("B", "C")
+    shots_mode = mode in ("B", "C", "D")
+    if mode == "D":
+        # deferred measurements with shots: what matters is how postselection thins the shots
+        use_postselect = True
+        for o in ops:
+            if o[0] == "measure" and o[2]["postselect"] is None and w.random() < 0.7:
+                o[2]["postselect"] = w.choice([0, 1])
     mps = []
     for _ in range(w.randint(1, 3)):
         r = w.random()
@@ -153,8 +159,10 @@ def gen_case(streams, tier):
         else:
             mps.append(["expval", qgen.gen_pauli_word(w, wires)])
     return {"n": n, "ops": ops, "mps": mps, "mode": mode,
-            "shots": (w.choice([1, 2, 3, 4, 5, 6, 8]) if shots_mode else None),
-            "postselect_mode": w.choice([None, "hw-like"]) if use_postselect else None,
+            "shots": ((w.choice([1, 2, 3, 4, 5, 6, 8]) if mode != "D" else w.choice([5, 8, 13, 20, 40]))
+                      if shots_mode else None),
+            "postselect_mode": ((w.choice([None, "hw-like"]) if mode != "D" else w.choice([None, "hw-like", "fill-shots"]))
+                                if use_postselect else None),
             "policy": s.choice(POLICIES), "decide_seed": s.getrandbits(32)}
 
 
@@ -275,9 +283,24 @@ def _make_hub(case):
             self.draws += 1
             if method == "binomial":
                 nn, p = args[0], float(np.asarray(args[1]).reshape(-1)[0])
-                if nn != 1:
-                    self.offers.append({"kind": "binomial_n", "n": int(nn), "p": p})
-                    return simrng.PASS
+                if nn != 1 or case["mode"] == "D":
+                    nn = int(nn)
+                    # how many of nn shots survive a postselection: any count with non-zero probability is a
+                    # legal answer; the policy picks one (never 0 of a positive number unless p is 0)
+                    if p <= 1e-12:
+                        kept = 0
+                    elif p >= 1 - 1e-12 or policy == "ones":
+                        kept = nn
+                    elif policy == "zeros":
+                        kept = 1 if nn > 1 else nn
+                    elif policy == "rare":
+                        kept = max(1, nn // 2)
+                    elif policy == "alternate":
+                        kept = max(1, nn - 1)
+                    else:
+                        kept = max(1, min(nn, int(round(nn * p))))
+                    self.offers.append({"kind": "binomial_n", "n": nn, "p": p, "out": kept})
+                    return np.int64(kept)
                 out = self._pick([1 - p, p], self.n_binom)
                 self.n_binom += 1
                 self.offers.append({"kind": "binomial", "p": p, "out": out})
@@ -290,8 +313,10 @@ def _make_hub(case):
                     return simrng.PASS
                 a = np.arange(a) if isinstance(a, (int, np.integer)) else np.asarray(a)
                 nsz = int(np.prod(size)) if size is not None else 1
+                if nsz == 0:
+                    return simrng.PASS  # no shot left to draw for
                 shot_tag = self.n_binom  # identical offers between two binomials get identical answers
-                idx = np.array([self._pick(p, shot_tag * 1000 + j) for j in range(nsz)])
+                idx = np.array([self._pick(p, shot_tag * 1000 + j) for j in range(nsz)], dtype=int)
                 self.offers.append({"kind": "choice", "p": np.array(p, dtype=float), "size": nsz, "idx": idx})
                 out = a[idx]
                 return out[0] if size is None else out.reshape(size)
@@ -338,8 +363,9 @@ def run_case(case):
         counters["skipped_zero_probability_postselection"] = 1
         return {"violations": [], "digest": "skip", "nontrivial": False, "counters": counters,
                 "sim_time": 0.0, "case": case, "summary": {"skipped": True}}
-    method = {"A_deferred": "deferred", "A_tree": "tree-traversal", "B": "one-shot", "C": "tree-traversal"}[mode]
-    hub = _make_hub(case) if mode in ("B", "C") else None
+    method = {"A_deferred": "deferred", "A_tree": "tree-traversal", "B": "one-shot", "C": "tree-traversal",
+              "D": "deferred"}[mode]
+    hub = _make_hub(case) if mode in ("B", "C", "D") else None
     seed = simrng.SimGenerator(np.random.PCG64(7), hub) if hub is not None else 7
     dev = qp.device("default.qubit", seed=seed)
     qn = qp.QNode(_qfunc(case), dev, mcm_method=method, postselect_mode=case["postselect_mode"],
@@ -597,6 +623,139 @@ def run_case(case):
                     valid_n = [k for k in range(1, shots + 1) if abs(g * k - round(float(g * k))) < 1e-8]
                     if not valid_n or not (-1e-9 <= g <= 1 + 1e-9):
                         viol("tree_statistics_inconsistent", {"mp": kind}, {"observed": float(g), "shots": shots})
+    # ---- mode C, shot bookkeeping: the per-history shot counts follow from the decided draws alone -------
+    if results is not None and mode == "C" and not violations:
+        mcm_offers = [o for o in hub.offers if o["kind"] == "choice" and len(o["p"]) == 2**n]
+        ps_of = [o[2]["postselect"] for o in case["ops"] if o[0] == "measure"]
+        leaf_counts = {}
+        reconstructable = [True]
+
+        def descend(prefix, shots_here, valid):
+            if shots_here == 0:
+                return
+            if len(prefix) == K:
+                if valid:
+                    leaf_counts[prefix] = leaf_counts.get(prefix, 0) + shots_here
+                return
+            node = tree.nodes.get(prefix)
+            if node is None:
+                reconstructable[0] = False
+                return
+            st, p1, wire = node
+            ref_p = np.abs(st) ** 2
+            # identical offers get identical answers from the hub, so any matching offer will do
+            off = next((o for o in mcm_offers if o["size"] == shots_here and _close(o["p"], ref_p, 1e-7)), None)
+            if off is None:
+                reconstructable[0] = False
+                return
+            bits = [(int(i) >> (n - 1 - wire)) & 1 for i in off["idx"]]
+            n1 = sum(bits)
+            k = len(prefix)
+            for outcome, cnt in ((0, shots_here - n1), (1, n1)):
+                ok = valid and (ps_of[k] is None or ps_of[k] == outcome)
+                if ps_of[k] is not None and ps_of[k] != outcome:
+                    continue  # discarded by postselection: nothing below it is sampled
+                descend(prefix + (outcome,), cnt, ok)
+
+        descend((), case["shots"], True)
+        if not reconstructable[0]:
+            counters["tree_counts_not_reconstructable"] = 1
+        else:
+            counters["tree_bookkeeping_checked"] = 1
+            nv = sum(leaf_counts.values())
+            for mp, got in zip(mps, results):
+                kind = mp[0]
+                if not kind.endswith("_mv") or nv == 0:
+                    continue
+                if kind == "expval_mv":
+                    exp = sum(c * branch.eval_expr(mp[1], hh) for hh, c in leaf_counts.items()) / nv
+                elif kind == "var_mv":
+                    m1 = sum(c * branch.eval_expr(mp[1], hh) for hh, c in leaf_counts.items()) / nv
+                    m2 = sum(c * branch.eval_expr(mp[1], hh) ** 2 for hh, c in leaf_counts.items()) / nv
+                    exp = m2 - m1 ** 2
+                elif kind == "probs_mv":
+                    exp = np.zeros(2 ** len(mp[1]))
+                    for hh, c in leaf_counts.items():
+                        ix = 0
+                        for kk in mp[1]:
+                            ix = (ix << 1) | int(hh[kk])
+                        exp[ix] += c / nv
+                else:  # counts_mv
+                    exp = {}
+                    for hh, c in leaf_counts.items():
+                        exp[int(hh[mp[1]])] = exp.get(int(hh[mp[1]]), 0) + c
+                    try:
+                        gd = {int(float(a)): int(b) for a, b in dict(got).items() if int(b)}
+                    except Exception:  # noqa: BLE001
+                        gd = None
+                    if gd != {a: b for a, b in exp.items() if b}:
+                        viol("tree_statistic_is_not_the_function_of_the_decided_draws", {"mp": kind},
+                             {"measurement": mp, "expected": exp, "observed": repr(got)[:200],
+                              "shots_per_history": {str(list(hh)): c for hh, c in leaf_counts.items()}})
+                    continue
+                try:
+                    g = np.real(np.asarray(got)).astype(float)
+                except Exception:  # noqa: BLE001
+                    continue
+                if np.isnan(g).any():
+                    continue
+                if g.shape != np.asarray(exp).shape or not np.allclose(g, exp, atol=1e-9):
+                    viol("tree_statistic_is_not_the_function_of_the_decided_draws", {"mp": kind},
+                         {"measurement": mp, "expected": np.round(np.asarray(exp, dtype=float), 8).tolist(),
+                          "observed": np.round(g, 8).tolist(),
+                          "shots_per_history": {str(list(hh)): c for hh, c in leaf_counts.items()}})
+    # ---------------------------------------------------------------------------------- mode D ----------
+    if results is not None and mode == "D":
+        shots = case["shots"]
+        thin = [o for o in hub.offers if o["kind"] == "binomial_n"]
+        counters["decision_points"] = len(hub.offers)
+        ps_list = [(k, o[2]["postselect"]) for k, o in enumerate(
+            [o for o in case["ops"] if o[0] == "measure"]) if o[2]["postselect"] is not None]
+        fill = case["postselect_mode"] == "fill-shots"
+        nontrivial = bool(thin)
+        kept = shots
+        if fill:
+            if thin:
+                viol("shots_thinned_under_fill_shots", {}, {"offers": [[o["n"], round(o["p"], 6)] for o in thin]})
+        else:
+            # reference: probability that the k-th postselected measurement gives its value, given that
+            # all earlier postselections succeeded
+            def cond_prob(upto):
+                def ok(h, m):
+                    return all(h[k] == v for k, v in ps_list[:m])
+                num = sum(b.prob for b in tree.leaves if ok(b.h, upto + 1))
+                den = sum(b.prob for b in tree.leaves if ok(b.h, upto))
+                return num / den if den > 0 else 0.0
+
+            if len(thin) != len(ps_list) and all(o["n"] > 0 for o in thin):
+                viol("postselection_thinning_steps_wrong", {},
+                     {"expected_steps": len(ps_list), "observed": [[o["n"], round(o["p"], 6), o["out"]] for o in thin]})
+            else:
+                for j, o in enumerate(thin):
+                    if o["n"] != kept:
+                        viol("postselection_thins_the_wrong_number_of_shots", {"step": j},
+                             {"shots_still_valid": kept, "offered_n": o["n"],
+                              "steps": [[x["n"], round(x["p"], 6), x["out"]] for x in thin]})
+                        break
+                    rp = cond_prob(j)
+                    if abs(o["p"] - rp) > 1e-7:
+                        viol("postselection_probability_wrong", {"step": j},
+                             {"offered_p": round(o["p"], 8), "reference_p": round(rp, 8)})
+                        break
+                    kept = o["out"]
+        if not violations:
+            counters["shots_kept_checked"] = 1
+            for mp, got in zip(mps, results):
+                if mp[0] in ("counts", "counts_mv") and isinstance(got, dict):
+                    tot = sum(int(v) for v in got.values())
+                    if tot != kept:
+                        viol("returned_shot_total_differs_from_kept_shots", {"mp": mp[0]},
+                             {"kept": kept, "returned_total": tot, "postselect_mode": case["postselect_mode"]})
+                        break
+            sizes = [o["size"] for o in hub.offers if o["kind"] == "choice"]
+            if sizes and any(sz != kept for sz in sizes) and kept > 0:
+                viol("terminal_samples_drawn_for_the_wrong_number_of_shots", {},
+                     {"kept": kept, "draw_sizes": sizes[:6]})
     h = hashlib.sha256(json.dumps([mode, forced, _ENV["qgen"].to_jsonable(res) if res is not None else None,
                                    case["policy"] if hub else None], sort_keys=True, default=str).encode())
     counters["policy:" + case["policy"]] = 1 if hub else 0
